@@ -16,7 +16,9 @@ PROP = "C10"
 def rtok(t):
     k = t["t"]
     if k == "num":
-        return str(t["v"])
+        return str(t["v"]) if t["v"] >= 0 else str(t["v"] + (1 << 32))
+    if k == "str":
+        return '"a"'
     if k == "name":
         return t["n"]
     if k == "defined":
@@ -51,7 +53,7 @@ def rstmt(s):
     if k == "endif":
         return ".endif"
     if k == "define":
-        return ".define %s %d" % (s["n"], s["v"])
+        return (".define %s 0x%x" if s["n"] == "DH" else ".define %s %d") % (s["n"], s["v"])
     if k == "label":
         return "%s:" % s["n"]
     raise ValueError(k)
